@@ -120,6 +120,9 @@ theorem sndRel_shSnd (σ : Sigma) (s : Seg) : SndRel σ s (shSnd σ s) := by
 
 /-! ### states -/
 
+/-- segments waiting in `snd_queue` have never been transmitted (`Send` creates them with `xmit = 0`) -/
+def Fresh (l : List Seg) : Prop := ∀ s ∈ l, s.xmit = 0
+
 structure Sim (σ : Sigma) (k k' : Kcp) : Prop where
   conv       : k'.conv = k.conv
   mtu        : k'.mtu = k.mtu
@@ -155,6 +158,7 @@ structure Sim (σ : Sigma) (k k' : Kcp) : Prop where
   rcv_buf    : k'.rcv_buf = k.rcv_buf.map (shRcv σ)
   acklist    : k'.acklist = k.acklist.map (shAck σ)
   snd_buf    : All₂ (SndRel σ) k.snd_buf k'.snd_buf
+  fresh      : Fresh k.snd_queue
 
 /-- the canonical shifted state -/
 def shiftK (σ : Sigma) (k : Kcp) : Kcp :=
@@ -169,11 +173,12 @@ theorem forall₂_map_shSnd (σ : Sigma) (l : List Seg) : All₂ (SndRel σ) l (
   | nil => exact All₂.nil
   | cons s t ih => exact All₂.cons (sndRel_shSnd σ s) ih
 
-theorem sim_shiftK (σ : Sigma) (k : Kcp) : Sim σ k (shiftK σ k) := by
+theorem sim_shiftK (σ : Sigma) (k : Kcp) (hf : Fresh k.snd_queue) : Sim σ k (shiftK σ k) := by
   constructor <;> (try rfl)
   · intro h; simp only [shiftK, if_neg h]
   · intro h; simp only [shiftK, if_neg h]
   · exact forall₂_map_shSnd σ k.snd_buf
+  · exact hf
 
 /-! ### output bytes -/
 
